@@ -50,7 +50,8 @@ class RuleMd047(RulePlugin):
         """
         if context.in_fix_mode:
             if (
-                context.last_line_fixed is not None
+                self.__last_line
+                and context.last_line_fixed is not None
                 and not context.last_line_fixed.endswith("\n")
             ):
                 context.set_current_fix_line("\n")
